@@ -30,6 +30,9 @@ CHECKS = {
  'C11': dict(level='exploration', tech='runtime monitor: conservation checker (energy, angular momentum) on the rates returned by the single- and dual-body functional API',
              text='Randomised exploration over the same state space as C10 with extra weight on e=0, resonances and dual dissipation; balances evaluated from the returned rates with independently coded orbital energy / angular momentum.',
              note='Balances to 1e-10 (energy) and 1e-9 (angular momentum) of the largest term; rotational energy uses the moment of inertia passed to the API.', ref='4/C11'),
+ 'C14': dict(level='exploration', tech='runtime monitor: per-mode tuple monitors (Laplace identity, complex-step / finite-difference derivative consistency, mode-sum, limits) plus an exact-physics anchor (closed-form degree-2 potential of a Keplerian perturber, analytic time mean, FFT spectral lines per mode)',
+             text='Randomised exploration over colatitude, longitude, time, n, spin, e<=0.4, obliquity, both static flags and all 8 implementations with every mode; the exact oracle decides which variant is at fault and checks every retained coefficient via per-mode spectral lines at two eccentricities.',
+             note='Limits are tested to the order the simpler variant retains (the medium-obliquity variants are a joint third-order series in e and I). Truncation budgets are listed in the evidence assumptions. One open known finding (static term replicated per mode).', ref='4/C14'),
 }
 NA = []
 def main():
